@@ -26,7 +26,7 @@ VARIABLES cs
 (* Remaining known defects of the shipped code.  Octal8 (fix b953446), Utf8Overlong and Utf8SurrogateHigh *)
 (* (fix aa3a89d), PlainCharRaw and WideCharRaw (fix 1ef9a15) were deviations until those commits; their *)
 (* disjuncts are deleted and the model below transcribes the repaired code.                            *)
-AllDevs == {"EscapeRange", "CharConstCpRange"}
+AllDevs == {"StrEscapeTrunc", "CharConstCpRange"}
 ASSUME Devs \subseteq AllDevs
 
 BS == 92   SQ == 39   DQ == 34   NL == 10
@@ -316,7 +316,8 @@ DecodeChar(tok, i, D) ==
       LET r == HexRun(tok, i + 2) IN
       IF r = 0 THEN [st |-> "abort"]
       ELSE LET a == FoldLeft(LAMBDA acc, k : WStep(acc, HexVal(tok[i + 1 + k]), 16), [w |-> <<0, 0>>, ovf |-> FALSE], [k \in 1..r |-> k])
-           IN [st |-> "ok", w |-> a.w, n |-> 2 + r, hexoct |-> TRUE, ovf |-> a.ovf]
+           IN IF a.ovf THEN [st |-> "err"]        \* if (c >> 28) error(loc, "%s contains escape sequence out of range", desc)
+              ELSE [st |-> "ok", w |-> a.w, n |-> 2 + r, hexoct |-> TRUE, ovf |-> FALSE]
     ELSE IF ~ExprIsODigit(e, D) THEN [st |-> "abort"]
     ELSE LET r == IF ~ExprIsODigit(At(tok, i + 2), D) THEN 1 ELSE IF ~ExprIsODigit(At(tok, i + 3), D) THEN 2 ELSE 3
              a == FoldLeft(LAMBDA acc, k : WStep(acc, tok[i + k] - 48, 8), [w |-> <<0, 0>>, ovf |-> FALSE], [k \in 1..r |-> k])
@@ -339,7 +340,7 @@ DecLoop(tok, i, size, D, acc) ==
   IF tok[i] = DQ THEN [st |-> "ok", units |-> acc]
   ELSE LET d == DecodeChar(tok, i, D) IN
     IF d.st # "ok" THEN [st |-> d.st]
-    ELSE IF "EscapeRange" \notin D /\ d.hexoct /\ (d.ovf \/ ~WFits(d.w, size)) THEN [st |-> "err"]
+    ELSE IF "StrEscapeTrunc" \notin D /\ d.hexoct /\ ~WFits(d.w, size) THEN [st |-> "err"]   \* deviation: encodechar8/16 truncate
     ELSE LET e == EncodeChar(size, d.w, d.hexoct) IN
          IF e = <<>> THEN [st |-> "abort"] ELSE DecLoop(tok, i + d.n, size, D, acc \o e)
 
@@ -374,7 +375,7 @@ ModelChr(pfx, body, targ, D) ==
      ELSE IF d.st = "err" THEN MReject
      ELSE IF d.st = "abort" THEN MAbort
      ELSE IF tok[1 + d.n] # SQ THEN MReject                 \* "more than one character"
-     ELSE IF "EscapeRange" \notin D /\ d.hexoct /\ (d.ovf \/ ~WFits(d.w, size)) THEN MReject
+     ELSE IF d.hexoct /\ ~WFits(d.w, size) THEN MReject    \* hexoct && chr >> (t ? t->size * 8 - 1 : 7) >> 1
      ELSE IF "CharConstCpRange" \notin D /\ ~d.hexoct /\ pfx \in {"u8", "u"}
              /\ NatOfW(d.w) >= (IF pfx = "u8" THEN 128 ELSE 65536) THEN MReject
      ELSE IF pfx = "" THEN          \* !t: if (targ->signedchar && val >= 0x80 && val < 0x100) val -= 0x100; larger codes stay raw
